@@ -288,6 +288,54 @@ template <typename Rep1, typename Period1, typename Rep2, typename Period2>
     return CD(static_cast<CR>(CD(lhs).count() - CD(rhs).count()));
 }
 
+namespace detail {
+template <typename T>
+inline constexpr bool is_duration_specialization = false;
+template <typename Rep, typename Period>
+inline constexpr bool is_duration_specialization<duration<Rep, Period>> = true;
+} // namespace detail
+
+/// Multiplies the tick count of a duration by a scalar, computed in the common
+/// representation type. [time.duration.nonmember]
+template <typename Rep1, typename Period, typename Rep2>
+    requires(is_convertible_v<Rep2 const&, common_type_t<Rep1, Rep2>>)
+[[nodiscard]] constexpr auto operator*(duration<Rep1, Period> const& d, Rep2 const& s)
+    -> duration<common_type_t<Rep1, Rep2>, Period>
+{
+    using CD = duration<common_type_t<Rep1, Rep2>, Period>;
+    return CD(CD(d).count() * s);
+}
+
+template <typename Rep1, typename Rep2, typename Period>
+    requires(is_convertible_v<Rep1 const&, common_type_t<Rep1, Rep2>>)
+[[nodiscard]] constexpr auto operator*(Rep1 const& s, duration<Rep2, Period> const& d)
+    -> duration<common_type_t<Rep1, Rep2>, Period>
+{
+    return d * s;
+}
+
+/// Divides the tick count of a duration by a scalar, computed in the common
+/// representation type. [time.duration.nonmember]
+template <typename Rep1, typename Period, typename Rep2>
+    requires(not detail::is_duration_specialization<Rep2> and is_convertible_v<Rep2 const&, common_type_t<Rep1, Rep2>>)
+[[nodiscard]] constexpr auto operator/(duration<Rep1, Period> const& d, Rep2 const& s)
+    -> duration<common_type_t<Rep1, Rep2>, Period>
+{
+    using CD = duration<common_type_t<Rep1, Rep2>, Period>;
+    return CD(CD(d).count() / s);
+}
+
+/// Remainder of the tick count of a duration and a scalar, computed in the
+/// common representation type. [time.duration.nonmember]
+template <typename Rep1, typename Period, typename Rep2>
+    requires(not detail::is_duration_specialization<Rep2> and is_convertible_v<Rep2 const&, common_type_t<Rep1, Rep2>>)
+[[nodiscard]] constexpr auto operator%(duration<Rep1, Period> const& d, Rep2 const& s)
+    -> duration<common_type_t<Rep1, Rep2>, Period>
+{
+    using CD = duration<common_type_t<Rep1, Rep2>, Period>;
+    return CD(CD(d).count() % s);
+}
+
 /// Performs basic arithmetic operations between two durations or between
 /// a duration and a tick count.
 ///
